@@ -100,7 +100,7 @@ Unlinked(ws, ln) ==
 DirBook(ws, ln) ==
   IF ~ws.recursive \/ ln.ret # "ok" THEN ws
   ELSE IF ln.op = "mkdir" THEN LET p == ParentOf(ln.shadow, IN_CREATE) IN CoverNewDir(ws, p.ino, p.n, ln.ino)
-  ELSE IF ln.op = "rename" /\ ln.kind = "dir" THEN LET p == ParentOf(ln.shadow, IN_MOVED_TO) IN MoveDir(ws, ln.ino, p.ino, p.n)
+  ELSE IF ln.op \in {"rename", "rename2"} /\ ln.kind = "dir" THEN LET p == ParentOf(ln.shadow, IN_MOVED_TO) IN MoveDir(ws, ln.ino, p.ino, p.n)
   \* a name inside the tree now is a symbolic link to itself: if a directory was created under that name and the
   \* reader has not got to it yet, watching it fails with ELOOP and that is reported on Errors
   ELSE IF ln.op = "symloop" THEN [ws EXCEPT !.flags = @ \cup {"regloop"}]
